@@ -100,3 +100,5 @@ void ws_free(void *p);
 #define malloc ws_malloc
 #define free ws_free
 #endif
+
+#include "../wincommon/wincodes.h"
